@@ -116,6 +116,39 @@ claim("C26", "model_checking", "fsmx",
       "In every state reached after a CSV refund the policy file, a policy re-created from it, incoming requests, local initiations and poll / request_poll handling are probed.",
       E1NOTE + "; real policy file and real bbolt peer store", "DESIGN.md §5 C26")
 
+
+SCHEDNOTE = ("trusted base: the hand-written cooperative scheduler (harness/sched), the sync shim, the simulated environment; the real BlockchainRpcTxWatcher is on the callback side; "
+             "interleavings beyond the preemption bound and the watcher's polling loops / pay-retry loop (real-time) are out of reach")
+
+claim("C03", "model_checking", "enum",
+      "bounded-exhaustive enumeration of opening-tx layouts x paths x fee answers x secrets through the real LND wallet adapter (fake gRPC) and the real LiquidOnChain (real confidential transactions); verdicts by the btcd script engine / a cross-validated evaluator over go-elements sighashes",
+      "Every spend the adapters build for every enumerated opening transaction is checked for outpoint, script acceptance, BIP68 maturity edge, single own output and value conservation; exhaustive for the stated alphabets.",
+      ENUMNOTE + "; fake lnd gRPC clients / fake wallet.Wallet building real Elements transactions", "DESIGN.md §5 C03")
+claim("C08", "model_checking", "enum",
+      "cartesian-product enumeration of funding results x amounts x premiums x chains / back-ends x maker roles through the real CreateAndBroadcastOpeningTransaction with the real wallet adapters",
+      "The announced message is compared with the transaction actually handed to the chain (txid, index of the swap output, invoice amount / hash / expiry / CLTV, blinding key) for every enumerated case.",
+      ENUMNOTE + "; fake lnd gRPC / fake elementsd RpcClient", "DESIGN.md §5 C08")
+claim("C11", "model_checking", "enum",
+      "cartesian-product enumeration of request fields x policy / configuration through the real request handlers with the real policy.Policy and premium.Setting; big-integer reference admission predicate",
+      "Full product over the interacting dimensions and all single / pairwise deviations of the others; the first reply (agreement vs cancel) is compared with the conjunction in the statement.",
+      E1NOTE, "DESIGN.md §5 C11")
+claim("C12", "model_checking", "enum",
+      "boundary-grid enumeration (incl. int64 / uint64 extremes) of premiums, limits, amounts, fee invoices through the real initiator and responder code paths with a scripted peer; big-integer outflow bounds",
+      "Every grid point is run through the real actions; payments, locked amounts and created invoices are compared with big-integer bounds.",
+      E1NOTE, "DESIGN.md §5 C12")
+claim("C18", "model_checking", "sched",
+      "stateless DFS over thread schedules with iterative preemption bounding (cooperative scheduler at lock / spawn / wait / environment-call points) on the real swap service + real rpc watcher; deadlock = no enabled thread",
+      "All schedules within the preemption bound of {peer message || block notification || payment || RPC reads || RecoverSwaps} for CSV not yet / just / long matured and maturing mid-run; deadlocks are decided structurally and reported with the lock cycle.",
+      SCHEDNOTE, "DESIGN.md §3.6, §5 C18")
+claim("C19", "model_checking", "sched",
+      "the same schedule exploration built with -race; thread hand-off by raw pipe system calls (invisible to the detector), shim locks wrap the real primitives; oracle = zero race reports with access sites in peerswap code",
+      "Every schedule within the bound is executed under the Go race detector, which then sees exactly the program's own happens-before edges; a self-test proves per run that an unsynchronised pair is reported and a mutex-protected pair is not.",
+      SCHEDNOTE + "; Go race detector (happens-before, shadow memory)", "DESIGN.md §3.6, §5 C19")
+claim("C20", "model_checking", "enum",
+      "explicit-state BFS by replay over block histories (blocks with / without the tx, mempool, reorgs, RPC errors, stale answers, window / CSV edge jumps, duplicate notifications, chain moving mid-lookup) for the real rpc, Electrum/LWK and LND watchers in synctest bubbles",
+      "All histories up to the stated depth per watcher; every callback is compared with the chain's ground truth at that instant; at most one report per registration.",
+      ENUMNOTE + "; simulated chain views (bitcoind/elementsd RPC, Electrum, lnd chain notifier); go1.26.8 testing/synctest", "DESIGN.md §3.4, §5 C20")
+
 NA_REASON = "check not built yet in this session (planned, see DESIGN.md §5)"
 
 def main():
